@@ -110,14 +110,21 @@ def make_harness(n_timers, iterations, allow_ops=True, noise=True):
                 for j in range(n_timers):
                     if ops_left['reset'] and ghost[j]['alive']:
                         menu.append(('reset', j))
+                        menu.append(('reset-new-interval', j))
                     if ops_left['unregister'] and ghost[j]['alive']:
                         menu.append(('unregister', j))
                 op = g.pick('op%d' % it, menu) if len(menu) > 1 else 'none'
                 if op != 'none':
-                    ops_left[op[0]] -= 1
+                    ops_left['reset' if op[0].startswith('reset') else op[0]] -= 1
                     if op[0] == 'reset':
                         timers[op[1]].reset()
                         ghost[op[1]]['armed'] = clock.now
+                    elif op[0] == 'reset-new-interval':
+                        new_i = g.real('J%d' % op[1], 0)
+                        timers[op[1]].reset(new_i)
+                        ghost[op[1]]['armed'] = clock.now
+                        ghost[op[1]]['I'] = new_i
+                        ghost[op[1]]['fired'] = []     # the spacing rule restarts with the new interval
                     else:
                         timers[op[1]].unregister()
                         ghost[op[1]]['alive'] = False
@@ -219,7 +226,7 @@ def canaries():
 
 def parts(tier):
     if tier == 'quick':
-        return [Part('timers', make_harness(2, 3), bounds={'timers': 2, 'iterations': 3, 'ops': 'one reset and one unregister at any iteration', 'noise': 'queued event / generator task in the first iteration'},
+        return [Part('timers', make_harness(2, 3), bounds={'timers': 2, 'iterations': 3, 'ops': 'one reset (same or new symbolic interval) and one unregister at any iteration', 'noise': 'queued event / generator task in the first iteration'},
                      encoded=ENC, budget_s=90)]
     return [Part('timers', make_harness(2, 6), bounds={'timers': 2, 'iterations': 6}, encoded=ENC, budget_s=1800),
             Part('three-timers', make_harness(3, 4, noise=False), bounds={'timers': 3, 'iterations': 4}, encoded=ENC, budget_s=1800)]
